@@ -50,6 +50,19 @@ class PyModel:
         if want_cpp:
             targets["cpp"] = dict({"sourcesOutputDir": "../out/cpp", "generateHDF5": False, "generateCMakeLists": False}, **(cpp_opts or {}))
         pkg.targets = targets
+        prev = getattr(pkg, "generated_over", None)
+        if prev is not None:
+            # the everyday history of an output directory: it holds what was generated from the previous state of the model
+            # (another package object; the attribute travels with the pickled package into replay files)
+            prev.targets = targets
+            for path, text in M.render_tree(prev, self.dir).items():
+                os.makedirs(os.path.dirname(path), exist_ok=True)
+                with open(path, "w") as f:
+                    f.write(text)
+            subprocess.run([yardl_bin, "generate"], cwd=os.path.join(self.dir, prev.dirname), capture_output=True, text=True)
+            for name in os.listdir(self.dir):
+                if name != "out":
+                    shutil.rmtree(os.path.join(self.dir, name), ignore_errors=True)
         for path, text in M.render_tree(pkg, self.dir).items():
             os.makedirs(os.path.dirname(path), exist_ok=True)
             with open(path, "w") as f:
